@@ -50,35 +50,9 @@ def record(scene_list):
     from . import narrow as NW
     from .ratio import recon_vec
 
-    class Rec(C.ConvexCollider):
-        def __init__(self, inner, log):
-            super().__init__(None)
-            self.inner, self.log = inner, log
-
-        def make_artist(self, c=None):
-            pass
-
-        def first_vertex(self):
-            return self.inner.first_vertex()
-
-        def support_function(self, d):
-            p = self.inner.support_function(d)
-            self.log.append(np.array(p, dtype=float))
-            if len(self.log) > 400:
-                raise NW.SupportBudget()
-            return p
-
-        def center(self):
-            return self.inner.center()
-
-        def update_pose(self, pose):
-            self.inner.update_pose(pose)
-
-        def aabb(self):
-            return self.inner.aabb()
-
-        def collider2origin(self):
-            return self.inner.collider2origin()
+    def Rec(inner, log):
+        # instance-level tap: the library sees the ConvexHullVertices object itself (see narrow.tap)
+        return NW.tap(inner, log, 400, "p")
     ev = []
     NW.install_observers()
     for k, (a, b, t) in enumerate(scene_list):
